@@ -303,6 +303,35 @@ func init() {
 				c.Done()
 				c10Check(x, p, d)
 			}},
+			{Name: "input-nulls", Quick: []int{1}, ShardDepth: -1, Run: func(c *explore.Chooser, x *explore.Ctx, _ int) {
+				// a JSON null selected from the input is a value (null), not "no value"
+				cases := []struct {
+					prog  string
+					input interface{}
+					want  string
+				}{
+					{`$`, nil, "null"},
+					{`n`, map[string]interface{}{"n": nil}, "null"},
+					{`a[0]`, map[string]interface{}{"a": []interface{}{nil}}, "null"},
+					{`[n]`, map[string]interface{}{"n": nil}, "[null]"},
+					{`$.a`, []interface{}{map[string]interface{}{"a": nil}}, "null"},
+					{`nn`, map[string]interface{}{"nn": []interface{}{nil, nil}}, "[null,null]"},
+					{`$lookup($, "n")`, map[string]interface{}{"n": nil}, "null"},
+					{`{"k": n}`, map[string]interface{}{"n": nil}, `{"k":null}`},
+				}
+				k := cases[c.Choose(len(cases))]
+				c.Done()
+				got := impl.Run(k.prog, k.input)
+				x.Eval()
+				x.Validated()
+				in := jsonText(k.input)
+				x.Describe(func() string { return k.prog + " on " + in })
+				if got.Kind != impl.Value || impl.Render(got.Val) != k.want {
+					x.Violation("value", "input-null:"+k.prog+"|"+in, explore.Detail{Program: k.prog, Input: in, Expected: "value " + k.want + " (null is a value; ErrUndefined is reported only when there is no value)", Observed: got.String()})
+				}
+				x.Nontrivial()
+				x.Outcome(got.Short())
+			}},
 			{Name: "numeric-edges", Quick: []int{1}, Run: func(c *explore.Chooser, x *explore.Ctx, _ int) {
 				shape := c10NumShapes[c.Choose(len(c10NumShapes))]
 				a := c10EdgeNumbers[c.Choose(len(c10EdgeNumbers))]
